@@ -51,7 +51,7 @@ ALL = {
             "Exploration over configurations: argsort tie order, component numbering, sparse-bincount key order, scatter filler and write order all resolved differently per seed; divergence counters must be non-zero."),
 }
 
-BUILT = ["C01", "C02", "C03", "C04", "C05", "C06", "C07", "C08", "C09", "C10", "C11", "C12", "C13", "C14", "C15", "C16", "C17", "C18", "C19"]
+BUILT = ["C01", "C02", "C03", "C04", "C05", "C06", "C07", "C08", "C09", "C10", "C11", "C12", "C13", "C14", "C15", "C16", "C17", "C18", "C19", "C20"]
 
 CHECKS = {pid: ("4/" + pid, ALL[pid][0] + "; two build profiles", ALL[pid][1] + " Held on the K executions listed in the evidence, not a proof.", COMMON_NOTE) for pid in BUILT}
 
